@@ -126,6 +126,9 @@ class FuncGen:
             items = ', '.join(self.expr('int', 0) for _ in range(n))
             return '(%s%s)' % (items, ',' if n == 1 else '')
         if kind == 'dict':
+            if r.random() < 0.3:
+                return '{%s}' % ', '.join('%s: %s' % (self.logged(self.expr('int', 0)), self.logged(self.expr('int', 0)))
+                                          for _ in range(r.randint(1, 3)))
             return '{%s}' % ', '.join('%s: %s' % (self.expr(r.choice(['int', 'str']), 0), self.expr('int', 0))
                                       for _ in range(r.randint(0, 3)))
         raise KeyError(kind)
@@ -156,6 +159,8 @@ class FuncGen:
         c = r.randint(0, 21)
         a = lambda: self.expr('int', d)
         if c <= 4:
+            if r.random() < 0.12:
+                return '(%s %s %s)' % (self.logged(a()), r.choice(['+', '-', '*', '&', '|', '^']), self.logged(a()))
             return '(%s %s %s)' % (a(), r.choice(['+', '-', '*', '&', '|', '^']), a())
         if c == 5:
             return '(%s %s %s)' % (a(), r.choice(['//', '%']), a())
@@ -174,6 +179,8 @@ class FuncGen:
             return r.choice(['abs(%s)', 'int(%s)', '(-%s)', 'int(%s)']) % (a() if r.random() < .7 else self.expr('float', d))
         if c == 10:
             self.f('builtin_call')
+            if r.random() < 0.3:
+                return '%s(%s, %s)' % (r.choice(['min', 'max']), self.logged(a()), self.logged(a()))
             return '%s(%s, %s)' % (r.choice(['min', 'max']), a(), a())
         if c == 11:
             self.f('builtin_call')
@@ -217,6 +224,12 @@ class FuncGen:
             self.f('global_read')
             return r.choice(['G0', 'G1', 'len(GL)'])
         return self.expr('int', 0)
+
+    def logged(self, e):
+        """wrap an expression in log(): the harness logger records its value and returns it, which turns the
+        evaluation order of sub-expressions into an observable side effect"""
+        self.f('logged_operand')
+        return 'log(%s)' % e
 
     in_comp = 0
     no_star = False
@@ -374,6 +387,8 @@ class FuncGen:
             self.f('dictcomp')
             it = self.new('int')
             body = self.with_comp_var(it, 'int', lambda: (self.expr('int', d), self.expr('int', d)))
+            if r.random() < 0.5:
+                body = (self.logged(body[0]), self.logged(body[1]))   # key is evaluated before value
             return '{%s: %s for %s in range(%s)}' % (body[0], body[1], it, self.small(d))
         if c == 1:
             self.f('starred')
